@@ -31,7 +31,7 @@ def signature(sc, events, clause):
 def scenarios(ctx):
     rng = ctx.rng
     scs = []
-    for i in range(700 if ctx.quick else 15000):
+    for i in range(1300 if ctx.quick else 15000):
         fam = rng.choice(["single", "two", "trio", "quartet", "trio+1"])
         ns = {"single": 1, "two": 2, "trio": 3, "quartet": 4, "trio+1": 4}[fam]
         ped = {"trio": [["s1", "s2", "s3"]], "quartet": [["s1", "s2", "s3"], ["s1", "s2", "s4"]], "trio+1": [["s1", "s2", "s3"]]}.get(fam, [])
